@@ -70,3 +70,57 @@ theorem C10_refuses_non_pending (e : Env) (h : ∀ t, e.lookup ≠ .pending t) :
 /-- non-vacuity: a pending target with a >64-bit tip is replaced -/
 example : (cancelTx ⟨.pending ⟨7, 2^70, 2^70, 2^65 + 99⟩, some 5, true, true, 1⟩).submitted.length = 1 := by
   decide
+
+/-- what the chain node reports for a replacement this client submitted (a dynamic-fee
+transaction: `GasPrice()` is its fee cap) -/
+def C10_asLookedUp (r : Replacement) : TxCaps := ⟨r.nonce, r.feeCap, r.feeCap, r.tip⟩
+
+/-- **Cancelling a cancellation.**  A replacement the client submitted earlier, still pending, is
+cancelled like any other transaction: the second replacement re-uses the nonce, its tip is at
+least 110 % of the first replacement's tip and of what the node suggests *now*, and its fee cap
+covers the first replacement's fee cap plus the new tip — however many times this is repeated
+(`C10_cancel_chain`). -/
+theorem C10_cancel_of_cancellation (e1 e2 : Env) (t : TxCaps) (s1 s2 : Nat) :
+    let r1 := replacement e1 t s1
+    let r2 := replacement e2 (C10_asLookedUp r1) s2
+    r2.nonce = t.nonce ∧ 110 * r1.tip / 100 ≤ r2.tip ∧ 110 * s2 / 100 ≤ r2.tip ∧
+    r1.feeCap + r2.tip ≤ r2.feeCap ∧ r1.tip ≤ r2.tip := by
+  intro r1 r2
+  have hx := C10_exact_caps e2 (C10_asLookedUp r1) s2
+  have hl : r1.tip ≤ max r1.tip s2 := Nat.le_max_left _ _
+  have hr : s2 ≤ max r1.tip s2 := Nat.le_max_right _ _
+  refine ⟨rfl, ?_, ?_, ?_, ?_⟩
+  · show 110 * r1.tip / 100 ≤ (replacement e2 (C10_asLookedUp r1) s2).tip
+    rw [hx.1]; simp only [C10_asLookedUp]
+    exact Nat.div_le_div_right (Nat.mul_le_mul_left _ hl)
+  · show 110 * s2 / 100 ≤ (replacement e2 (C10_asLookedUp r1) s2).tip
+    rw [hx.1]; simp only [C10_asLookedUp]
+    exact Nat.div_le_div_right (Nat.mul_le_mul_left _ hr)
+  · show r1.feeCap + (replacement e2 (C10_asLookedUp r1) s2).tip ≤ (replacement e2 (C10_asLookedUp r1) s2).feeCap
+    rw [hx.2, hx.1]; simp only [C10_asLookedUp, Nat.max_self]; exact Nat.le_refl _
+  · show r1.tip ≤ (replacement e2 (C10_asLookedUp r1) s2).tip
+    rw [hx.1]; simp only [C10_asLookedUp]; omega
+
+/-- the k-th replacement in a chain of cancellations of cancellations -/
+def C10_chain (e : Env) (t : TxCaps) : List Nat → TxCaps
+  | [] => t
+  | s :: ss => C10_chain e (C10_asLookedUp (replacement e t s)) ss
+
+/-- along any chain of cancellations the nonce is the original's and tip and fee cap never go down -/
+theorem C10_cancel_chain (e : Env) (t : TxCaps) (ss : List Nat) :
+    (C10_chain e t ss).nonce = t.nonce ∧ t.tip ≤ (C10_chain e t ss).tip ∧
+    t.feeCap ≤ (C10_chain e t ss).feeCap := by
+  induction ss generalizing t with
+  | nil => exact ⟨rfl, Nat.le_refl _, Nat.le_refl _⟩
+  | cons s ss ih =>
+    have h := ih (C10_asLookedUp (replacement e t s))
+    have ht := (C10_tip_outbids e t s).1
+    have hf := (C10_exact_caps e t s).2
+    simp only [C10_chain]
+    refine ⟨h.1.trans rfl, Nat.le_trans ht h.2.1, Nat.le_trans ?_ h.2.2⟩
+    show t.feeCap ≤ (replacement e t s).feeCap
+    rw [hf]
+    have : t.feeCap ≤ max t.gasPrice t.feeCap := Nat.le_max_right _ _
+    omega
+
+example : (C10_chain ⟨.notFound, none, true, true, 1⟩ ⟨5, 100, 100, 10⟩ [10, 50, 3]).tip = 60 := by decide
